@@ -21,12 +21,17 @@
 EXTENDS Naturals, Sequences, FiniteSets, TLC
 
 Families == {"fmt_container", "fmt_enum", "debug_field", "from_variant", "from_struct", "asref_struct", "asref_field",
-             "into_struct", "into_field", "legacy_field", "legacy_forms", "error_field"}
+             "into_struct", "into_field", "legacy_field", "legacy_forms", "error_field",
+             \* field attributes of Debug under a struct-level / variant-level `#[debug("...")]`: a field format is
+             \* forbidden there, everything else is judged as on any field
+             "debug_field_cfmt", "debug_field_vfmt"}
+FmtForbidden == {"debug_field_cfmt", "debug_field_vfmt"}
 
 Atoms(f) ==
     CASE f = "fmt_container" -> {"lit", "lit_b", "bound_T", "bounds_T", "bound_U", "bound_TU", "legacy_fmt", "legacy_bound", "unknown"}
       [] f = "fmt_enum"      -> {"lit", "rename_snake", "rename_snake2", "rename_kebab", "rename_bad", "unknown"}
       [] f = "debug_field"   -> {"skip", "ignore", "lit", "unknown"}
+      [] f \in FmtForbidden  -> {"skip", "ignore", "lit", "unknown", "legacy_fmt"}
       [] f = "from_variant"  -> {"from", "skip", "ignore", "forward", "ty_a", "ty_b", "ty_ab", "ty_ab_comma", "legacy_types"}
       [] f = "from_struct"   -> {"forward", "ty_a", "ty_b", "ty_ab", "ty_ab_comma", "legacy_types"}
       [] f = "asref_struct"  -> {"forward", "ty_a", "ty_b", "ty_ab", "ty_ab_comma"}
@@ -69,7 +74,7 @@ Contrib(f, a) ==
       [] a = "backtrace" -> {"backtrace"} [] a = "source_backtrace" -> {"source", "backtrace"}
       [] OTHER -> {"corrupt"}
 
-SingleKind(f) == f \in {"debug_field", "from_variant", "from_struct", "asref_struct", "asref_field", "into_field", "into_struct"}
+SingleKind(f) == f \in FmtForbidden \/ f \in {"debug_field", "from_variant", "from_struct", "asref_struct", "asref_field", "into_field", "into_struct"}
 Repeatable(f) == CASE f \in {"fmt_container"} -> {"bound"}
                    [] f = "fmt_enum" -> {}
                    [] f \in {"from_variant", "from_struct", "asref_struct", "asref_field"} -> {"types"}
@@ -83,6 +88,7 @@ Result(f, as) ==
     LET kinds == {Kind(f, as[i]) : i \in 1..Len(as)}
         count(k) == Cardinality({i \in 1..Len(as) : Kind(f, as[i]) = k})
     IN  IF \E i \in 1..Len(as) : Corrupt(f, as[i]) THEN REJECT
+        ELSE IF f \in FmtForbidden /\ "fmt" \in kinds THEN REJECT
         ELSE IF SingleAttr(f) /\ Len(as) > 1 THEN REJECT
         ELSE IF SingleKind(f) /\ Cardinality(kinds) > 1 THEN REJECT
         ELSE IF \E k \in kinds : k \notin Repeatable(f) /\ count(k) > 1 THEN REJECT
